@@ -142,6 +142,17 @@ class VClock:
             sys.settrace(None)
         self.deep = False
 
+    def _consume(self):
+        """The (one-shot) timer has expired: nothing is pending any more, whether or not the
+        interrupted code ever reaches its alarm(0)."""
+        if self.record:
+            self.profile.append((self.blocks, self.ticks, self.calls, tuple(self.path), self.site))
+        self.open = False
+        self.fire_at = None
+        if self.deep or self.count_calls:
+            sys.settrace(None)
+        self.deep = False
+
     # --- statement ticks ------------------------------------------------------------------
     def tick(self):
         if not self.open:
@@ -153,6 +164,7 @@ class VClock:
             self.fire_at = None
             f = sys._getframe(1)
             self.fired.append((self.blocks, 'stmt', self.ticks, f.f_code.co_name, f.f_lineno, self.site))
+            self._consume()
             signal.raise_signal(signal.SIGALRM)
 
     # --- deep (call-event) expiry ---------------------------------------------------------
@@ -163,7 +175,7 @@ class VClock:
                 self.fire_at = None
                 self.fired.append((self.blocks, 'deep', self.calls, frame.f_code.co_name,
                                    frame.f_code.co_filename.split('/')[-1], self.site))
-                sys.settrace(None)
+                self._consume()
                 signal.raise_signal(signal.SIGALRM)
         return None
 
